@@ -7,6 +7,7 @@ compressor pair and compression codes, any bloom filter without false negatives,
 -/
 import SST.Proofs.SSTableReader
 import SST.Proofs.SSTableDisk
+import SST.Proofs.SSTableDiskLookup
 namespace SST.C03
 open SST Generated
 
@@ -70,36 +71,78 @@ example : ¬ PadInjective 4 [[97], [97, 0]] [97] := by decide
 
 /-! ## disk loader (documented EXPERIMENTAL in sstables/README.md) -/
 
-/-- PARTIAL (disk loader).  Full statement: as for the slice loader.  Proved: the table opens (verification
-on load included) and the full `Scan` is the sorted map, provided no index record embeds the bytes of a
-complete valid record (`NoPhantom`, decidable on the index file).  Contains / Get / ScanStartingAt /
-ScanRange are NOT proved because they are false of the code even without phantoms: see
-`disk_index_eof_in_binary_search` and `disk_index_range_upper_below_min`; without the hypothesis the scan
-fails too: `disk_index_phantom_in_index_payload`. -/
-theorem table_reads_as_map_disk_partial (comps : Nat → Compression) (cfg : SstCfg) (kvs : List KV)
+/-- Disk loader, after the repairs 37d0b89, 93d8a40, 90fd3ef: the FULL read-like-a-map statement, provided
+no index record embeds the bytes of a complete valid record (`NoPhantom`, decidable on the index file;
+without it see `disk_index_phantom_in_index_payload`).  The table written from `kvs` opens (verification on
+load included) and Contains / Get / Scan / ScanStartingAt / ScanRange answer exactly like the sorted map of
+`kvs` — the same five conjuncts as `table_reads_as_map_slice` (lower > upper rejected; bounds absent, present,
+below and above all keys; nil ≠ empty values; bloom filter without false negatives).
+
+The disk index has STATE, the offset cache (at most 1024 offsets, only successful reads are remembered), so
+the conjuncts are stated for EVERY index state calls may leave behind (`ReadsAsMapFrom`, `IndexState`: the
+same file and compressor, a cache holding only what a fresh read of that offset returns) and every call is
+shown to leave such a state: no answer depends on the lookups made before.  `table_reads_as_map_disk_calls`
+tells the same over call sequences. -/
+theorem table_reads_as_map_disk (comps : Nat → Compression) (cfg : SstCfg) (kvs : List KV)
     (hcmp : cfg.cmp = bytesCmp) (hc : CompsOk comps cfg) (hf : FitsKV cfg kvs) (hs : StrictAsc bytesCmp kvs)
     (hnp : Proofs.NoPhantom cfg.ic cfg.ict ((entriesOf cfg.dc kvs).map indexRecOf))
-    (o : ReadOpts) (bloom : Option (Bytes → Bool)) :
+    (o : ReadOpts) (bloom : Option (Bytes → Bool)) (hb : BloomOk bloom kvs) :
     ∃ r idx, openTable comps .disk o (writeTable cfg kvs) bloom = .ok (r, idx) ∧
-      r.scan comps idx = .ok (kvs.map normKV, .done) :=
-  Proofs.Sst.disk_scan comps cfg kvs hcmp hc hf hs hnp o bloom
+      ReadsAsMapFrom comps r idx kvs :=
+  Proofs.Sst.disk_table_reads comps cfg kvs hcmp hc hf hs hnp o bloom hb
 
-/-- COUNTEREXAMPLE (D4, finding `disk-index:eof-in-binary-search`): the binary search over byte offsets
-probes an offset behind the start of the last index record, `SeekNext` reports end-of-file there and the
-search answers "absent".  Two keys, the second longer than the first: BOTH written keys are not found. -/
-theorem disk_index_eof_in_binary_search :
+/-- The same over call sequences: ANY sequence of Get / Contains / Scan / ScanStartingAt / ScanRange calls on
+the opened reader (the offset cache threaded from call to call) gets, call by call, the answers of the
+sorted map of `kvs`. -/
+theorem table_reads_as_map_disk_calls (comps : Nat → Compression) (cfg : SstCfg) (kvs : List KV)
+    (hcmp : cfg.cmp = bytesCmp) (hc : CompsOk comps cfg) (hf : FitsKV cfg kvs) (hs : StrictAsc bytesCmp kvs)
+    (hnp : Proofs.NoPhantom cfg.ic cfg.ict ((entriesOf cfg.dc kvs).map indexRecOf))
+    (o : ReadOpts) (bloom : Option (Bytes → Bool)) (hb : BloomOk bloom kvs) :
+    ∃ r idx, openTable comps .disk o (writeTable cfg kvs) bloom = .ok (r, idx) ∧
+      ∀ calls : List ReadCall, r.calls comps idx calls = calls.map (specAns kvs) := by
+  obtain ⟨r, idx, h1, h2⟩ := table_reads_as_map_disk comps cfg kvs hcmp hc hf hs hnp o bloom hb
+  exact ⟨r, idx, h1, h2.calls⟩
+
+/-- `ReadsAsMapFrom` is `ReadsAsMap` with the index state threaded: for the loaders without state (their
+only reachable state is the loaded index) the slice theorem has exactly this form too. -/
+theorem table_reads_as_map_slice_from (comps : Nat → Compression) (cfg : SstCfg) (kvs : List KV)
+    (hcmp : cfg.cmp = bytesCmp) (hc : CompsOk comps cfg) (hf : FitsKV cfg kvs) (hs : StrictAsc bytesCmp kvs)
+    (o : ReadOpts) (bloom : Option (Bytes → Bool)) (hb : BloomOk bloom kvs) :
+    ∃ r idx, openTable comps .slice o (writeTable cfg kvs) bloom = .ok (r, idx) ∧
+      ReadsAsMapFrom comps r idx kvs :=
+  Proofs.Sst.slice_table_reads_from comps cfg kvs hcmp hc hf hs o bloom hb
+
+/-- non-vacuity of the `NoPhantom` hypothesis: the index file of the three-key table of the regression
+theorem below holds no phantom record (the check runs over every position of the file) -/
+example : Proofs.NoPhantom plainCfg.ic plainCfg.ict
+    ((entriesOf plainCfg.dc [([5], some [1]), ([6], some [2]), ([7], some [3])]).map indexRecOf) :=
+  Proofs.Sst.noPhantom_of_check _ _ _ (by decide +kernel)
+
+/-- the disk index never changes the FILE it answers from: a reachable state differs from the opened index
+in its offset cache only, and that cache holds only fresh reads -/
+example (d0 : DiskIdx) (idx : Index) (h : IndexState (.disk d0) idx) :
+    ∃ d, idx = .disk d ∧ d.file = d0.file ∧ d.c = d0.c ∧ DiskCacheFresh d := h
+
+/-- REGRESSION (was the counterexample `disk_index_eof_in_binary_search`, D4, finding
+`disk-index:eof-in-binary-search`; repaired by 93d8a40): two keys, the second longer than the first, so that
+the binary search over byte offsets probes an offset behind the start of the last index record.  End-of-file
+there now means "look below": both written keys are found, an unwritten key in between is not. -/
+theorem disk_index_eof_in_binary_search_fixed :
     probeGet .disk [([1], some [7]), ([2, 2, 2, 2, 2, 2, 2, 2, 2, 2, 2, 2], some [8])]
-      [2, 2, 2, 2, 2, 2, 2, 2, 2, 2, 2, 2] = some (.error .notFound) ∧
-    probeGet .disk [([1], some [7]), ([2, 2, 2, 2, 2, 2, 2, 2, 2, 2, 2, 2], some [8])] [1] = some (.error .notFound) ∧
+      [2, 2, 2, 2, 2, 2, 2, 2, 2, 2, 2, 2] = some (.ok (some [8])) ∧
+    probeGet .disk [([1], some [7]), ([2, 2, 2, 2, 2, 2, 2, 2, 2, 2, 2, 2], some [8])] [1] = some (.ok (some [7])) ∧
+    probeGet .disk [([1], some [7]), ([2, 2, 2, 2, 2, 2, 2, 2, 2, 2, 2, 2], some [8])] [2] = some (.error .notFound) ∧
     probeGet .slice [([1], some [7]), ([2, 2, 2, 2, 2, 2, 2, 2, 2, 2, 2, 2], some [8])] [1] = some (.ok (some [7])) := by
   decide +kernel
 
-/-- COUNTEREXAMPLE (D5, finding `disk-index:range-upper-below-min`): a range whose upper bound lies below
-the smallest key returns the WHOLE table (`endOffset - 1` wraps around at offset 0); the sorted map (and the
-slice loader) answer the empty range. -/
-theorem disk_index_range_upper_below_min :
-    probeRange .disk [([5], some [1]), ([6], some [2]), ([7], some [3])] [1] [2] =
-      .ok ([(some [5], some [1]), (some [6], some [2]), (some [7], some [3])], .done) ∧
+/-- REGRESSION (was the counterexample `disk_index_range_upper_below_min`, D5, finding
+`disk-index:range-upper-below-min`; repaired by 90fd3ef): a range whose upper bound lies below the smallest
+key is empty (it used to be the WHOLE table: `endOffset - 1` wrapped around at offset 0); a range that ends
+on the smallest key still delivers it. -/
+theorem disk_index_range_upper_below_min_fixed :
+    probeRange .disk [([5], some [1]), ([6], some [2]), ([7], some [3])] [1] [2] = .ok ([], .done) ∧
+    probeRange .disk [([5], some [1]), ([6], some [2]), ([7], some [3])] [1] [5] =
+      .ok ([(some [5], some [1])], .done) ∧
     probeRange .slice [([5], some [1]), ([6], some [2]), ([7], some [3])] [1] [2] = .ok ([], .done) := by
   decide +kernel
 
@@ -117,14 +160,14 @@ theorem disk_index_phantom_in_index_payload :
       .ok ([(some [1], some [1]), (some phantomKey, some [2]), (some [200], some [3])], .done) := by
   decide +kernel
 
-/-- COUNTEREXAMPLE (finding `disk-index:cached-failed-read-matches-empty-key`): `findAt` caches the empty
-record left behind by a FAILED `SeekNext` and returns it later without the error; an empty record compares
-equal to the empty key.  On an empty table the same call `Get("")` is "not found" four times (each failed probe offset
-is cached) and the fifth time "finds" the cached record and fails reading the data file at offset 0. -/
-theorem disk_index_cached_failed_read :
-    probeGets .disk [] [[], [], [], [], []] =
+/-- REGRESSION (was the counterexample `disk_index_cached_failed_read`, finding
+`disk-index:cached-failed-read-matches-empty-key`; repaired by 37d0b89): `findAt` no longer remembers the
+empty record a FAILED `SeekNext` leaves behind.  On an empty table the same call `Get("")` is "not found"
+every time (the fifth call used to "find" the cached empty record and fail with a magic-number error). -/
+theorem disk_index_cached_failed_read_fixed :
+    probeGets .disk [] [[], [], [], [], [], []] =
       [some (.error .notFound), some (.error .notFound), some (.error .notFound), some (.error .notFound),
-       some (.error .magic)] := by
+       some (.error .notFound), some (.error .notFound)] := by
   decide +kernel
 
 /-- non-vacuity: a concrete ascending list with a nil value, an empty value, marker bytes and the empty key;
